@@ -227,6 +227,57 @@ theorem addPacket_tail (d d1 : Db) (l : LH) (pkt : List (Str × V)) (x : LoopRow
   | ok d2 => rw [hav] at hcode; simp only [] at hcode; rw [hcode]; rfl
   | error c => rw [hav] at hcode; simp only [] at hcode; rw [hcode.2, hcode.1]; rfl
 
+/-- the code of cif_loop_add_packet in terms of the tables: CIF_RESERVED_LOOP for the scalar loop that has its packet,
+    CIF_WRONG_LOOP for an entry that is not an item of the loop, CIF_OK otherwise -/
+theorem addPacketBody_codeK (d : Db) (l : LH) (pkt : List (Str × V)) (x : LoopRow) (h : Inv d) (hx : x ∈ d.loops)
+    (hk : x.cid = l.cid ∧ x.loopNum = l.loopNum) (hrb : RowsBelow d l.cid l.loopNum)
+    (hsc : x.category = some [] → (1 ≤ x.lastRowNum ↔ d.loopRows x.cid x.loopNum ≠ []))
+    (hnd : pkt.Pairwise (fun a b => a.1 ≠ b.1)) :
+    (addPacketBody l pkt d).map (fun _ => ()) =
+      if x.category == some [] && !(d.loopRows x.cid x.loopNum).isEmpty then .error CIF_RESERVED_LOOP
+      else if pkt.any (fun e => !(d.loopItems l.cid l.loopNum).any (fun i => i.name == e.1)) then .error CIF_WRONG_LOOP
+      else .ok () := by
+  have hbump : d.loops.any (fun l' => l'.cid == l.cid && l'.loopNum == l.loopNum && l'.category == some [] && decide (l'.lastRowNum + 1 > 1)) =
+      (x.category == some [] && decide (1 ≤ x.lastRowNum)) := by
+    apply Bool.eq_iff_iff.mpr
+    constructor
+    · intro ha
+      obtain ⟨y, hy, hyk⟩ := List.any_eq_true.mp ha
+      simp only [Bool.and_eq_true, beq_iff_eq, decide_eq_true_eq] at hyk
+      have : y = x := loopKey_unique d.loops h.loopPK y hy x hx (by rw [hyk.1.1.1, hk.1]) (by rw [hyk.1.1.2, hk.2])
+      subst this
+      simp only [Bool.and_eq_true, beq_iff_eq, decide_eq_true_eq]
+      exact ⟨hyk.1.2, by omega⟩
+    · intro ha
+      simp only [Bool.and_eq_true, beq_iff_eq, decide_eq_true_eq] at ha
+      refine List.any_eq_true.mpr ⟨x, hx, ?_⟩
+      simp only [Bool.and_eq_true, beq_iff_eq, decide_eq_true_eq]
+      exact ⟨⟨⟨hk.1, hk.2⟩, ha.1⟩, by omega⟩
+  have tail := addPacket_tail d { d with loops := d.loops.map (fun y => if y.cid == l.cid && y.loopNum == l.loopNum then { y with lastRowNum := y.lastRowNum + 1 } else y) } l pkt x h hx hk hrb hnd rfl rfl rfl default
+  have tail' : ∀ b : Bool, ((if b = true then (.error CIF_WRONG_LOOP : Except Code Loop) else .ok default).map (fun _ => ())) =
+      (if b = true then (.error CIF_WRONG_LOOP : Except Code Unit) else .ok ()) := by intro b; cases b <;> rfl
+  rw [tail'] at tail
+  unfold addPacketBody Db.bumpRowNum
+  rw [hbump]
+  by_cases hscal : x.category = some []
+  · have hb : (x.category == some []) = true := by simpa using hscal
+    by_cases hrow : 1 ≤ x.lastRowNum
+    · have hne' := (hsc hscal).mp hrow
+      have : (d.loopRows x.cid x.loopNum).isEmpty = false := by
+        cases hr : d.loopRows x.cid x.loopNum with
+        | nil => exact absurd hr hne'
+        | cons a b => rfl
+      simp [hb, hrow, this, Except.map, msgMultiScalar, multipleScalarMessage]
+    · have hnr : d.loopRows x.cid x.loopNum = [] := by
+        cases hr : d.loopRows x.cid x.loopNum with
+        | nil => rfl
+        | cons a b => exact absurd ((hsc hscal).mpr (by rw [hr]; exact List.cons_ne_nil _ _)) hrow
+      simp only [hb, hrow, decide_false, Bool.and_false, Bool.false_eq_true, if_false, hnr, List.isEmpty_nil, Bool.not_true]
+      exact tail
+  · have hb : (x.category == some []) = false := by simpa using hscal
+    simp only [hb, Bool.false_and, Bool.false_eq_true, if_false]
+    exact tail
+
 /-- cif_loop_add_packet: the code is the documented model's — CIF_INVALID_PACKET for the empty packet, CIF_RESERVED_LOOP for the
     scalar loop that has its packet, CIF_WRONG_LOOP for an entry that is not an item of the loop, CIF_OK otherwise; no other code.
     Hypotheses beyond `Inv`: the handle names an existing loop; `RowsBelow`; for the scalar loop, last_row_num counts its packet;
